@@ -273,6 +273,8 @@ def gen_dt(r, kinds, sun=True, maxoff=21 * 86400, p_nooff=0.45, dow_names=None):
     else:
         tod, ts = gen_tod(r, sun)
     off = gen_off(r, maxoff, p_nooff)
+    if k == "md" and not ts and off["text"].startswith(("-", "+")):
+        off["text"] = " " + off["text"]          # "1/15-10" would read as the date 1/15/10
     text = " ".join(x for x in [ds, ts] if x) + off["text"]
     if not text.strip():
         text = "0:00"
@@ -417,6 +419,21 @@ def gen_period(r, dow_names=None):
             # keep windows clearly shorter than a day and end points clearly apart (sun times drift)
             if 1200 <= span <= 80000 and abs((b - a).total_seconds()) > 1200:
                 break
+    if hasend and r.random() < 0.5:
+        # end exactly on an element of the progression (the last instant is the end itself)
+        k = r.choice([0, 1, 2, 5])
+        if shape == "now" and not s["off"]["neg"]:
+            tot = s["off"]["s"] + k * isec
+            e = {"date": dict(s["date"]), "tod": dict(s["tod"]), "off": {"neg": False, "s": tot, "u": s["off"]["u"]},
+                 "text": "now + %s" % (("%d.%06d" % (tot, s["off"]["u"])).rstrip("0") if s["off"]["u"] else "%d" % tot) + r.choice(["s", " sec", ""])}
+        elif shape in ("full", "dailyend") and s["tod"]["k"] == "clock":
+            ref = dt.date(s["date"]["y"], s["date"]["m"], s["date"]["d"]) if shape == "full" else dt.date(2019, 6, 1)
+            t = inst_on(s, ref, None) + dt.timedelta(seconds=k * isec)
+            if shape == "full" or (t.date() == ref and (t - inst_on(s, ref, None)).total_seconds() < 80000):
+                e = {"date": {"k": "full", "y": t.year, "m": t.month, "d": t.day, "w": 0} if shape == "full" else dict(s["date"]),
+                     "tod": {"k": "clock", "s": t.hour * 3600 + t.minute * 60 + t.second, "u": t.microsecond},
+                     "off": {"neg": False, "s": 0, "u": 0}}
+                e["text"] = render_with_date(e, "%d/%d/%d" % (t.year, t.month, t.day) if shape == "full" else "").strip()
     text = "period(%s, %s%s)" % (s["text"], itxt, ", " + e["text"] if hasend else "")
     return {"kind": "period", "start": s, "isec": isec, "itxt": itxt, "hasend": hasend, "end": e, "text": text}
 
@@ -523,6 +540,20 @@ def sun_crosses_day(f):
     lo, hi = _SUNRANGE[f["tod"]["k"]]
     o = (-1 if f["off"]["neg"] else 1) * (f["off"]["s"] + (1 if f["off"]["u"] else 0))
     return not (0 <= lo + o and hi + o < 86400)
+
+
+def start_before_its_day(f):
+    """time-only form whose (negative) offset puts the instant before midnight of its day"""
+    if f["date"]["k"] != "none" or not f["off"]["neg"]:
+        return False
+    if f["tod"]["k"] == "clock":
+        return f["tod"]["s"] * 1000000 + f["tod"]["u"] - f["off"]["s"] * 1000000 - f["off"]["u"] < 0
+    return sun_crosses_day(f)
+
+
+def mask_ok_period(sp):
+    """outside the known period() defect: a time-only start (with an end) that lies before midnight of its day"""
+    return not (sp["kind"] == "period" and sp["hasend"] and start_before_its_day(sp["start"]))
 
 
 def mask_ok_once(sp, now):
